@@ -17,7 +17,7 @@ fi
 cd /repo; git worktree remove --force $WT
 git -C /repo apply $SEED/patch.diff
 for P in "$@"; do
-  cd /verif && ./check $P --no-evidence 2>&1 | grep -E "VIOLATION|label=|held on|INCONCLUSIVE|PROBLEM|MISSING|KNOWN" | cut -c1-260 | head -5
+  cd /verif && timeout ${SEED_TIMEOUT:-900} ./check $P --no-evidence 2>&1 | grep -E "VIOLATION|label=|held on|INCONCLUSIVE|PROBLEM|MISSING|KNOWN" | cut -c1-260 | head -5
 done
 git -C /repo checkout -- .
 git -C /repo status --porcelain --untracked-files=no
